@@ -1519,7 +1519,8 @@ RE_PATTERNS = [
     r"[\d\s]", r"(?P<a>x)(?P=a)", r"(?x) a b # c", r"a{3}?", r"\.", r"x**", r"(", r"[a", r"(?i:a)b", r"(?-i:a)b",
     r"(?s:.)x", r"a++", r"(?>ab)c", r"", r" ", r"a{1}", r"a{0,1}", r"a{1,}", r"a{0,}", r"[a-]", r"[-a]", r"[\-]",
     r"[a\]b]", r"[\^a]", r"[^^]", r"\$\^\*\+\?\{\}\[\]\|\(\)", r"(a)|b", r"((a))", r"(a(b)c)", r"()", r"(?:)",
-    r"a|", r"|a", r"(|a)", r"[\w.]+@[\w.]+", r"^\s*(\w+)\s*=\s*(.*?)\s*$", r"\d{1,3}(?:\.\d{1,3}){3}", r"[A-Fa-f0-9]{8}",
+    r"a|", r"|a", r"(|a)", r"foo|foobar", r"(foo|foobar)", r"^ab$|^ac$", r"ab|ac", r"xa|xb|xc", r"abc|abd|x",
+    r" (?!b)x| ", r"ab|a", r"(?:ab|a)c", r"a(b|bc)d", r"ab|cb", r"[\w.]+@[\w.]+", r"^\s*(\w+)\s*=\s*(.*?)\s*$", r"\d{1,3}(?:\.\d{1,3}){3}", r"[A-Fa-f0-9]{8}",
     r"(?u)\w", r"(?a)\w", r"(?L)x", r"\u00e9", r"\U0001f600", r"\N{DIGIT ONE}", r"\0", r"\07", r"\101", r"[\0-\x1f]",
     r"[\b]", r"\A\Z\b\B", r"a{2}{3}", r"(?P<x>a)(?(x)b|c)", r"(?#comment)a", r"\'", r"'", r"''", r"\"", "a\nb", "a\\\nb",
 ]
@@ -1556,7 +1557,7 @@ def _re_bound(call: ast.Call):
     return b.arguments.get("pattern"), b.arguments.get("flags")
 
 
-def regex_stream(ctx: Ctx) -> None:
+def regex_stream(ctx: Ctx, only: Optional[List[str]] = None, stream: str = "regex") -> None:
     """`re.compile(<constant pattern>[, flags])` goes through `_colorize_ast_re` / `_colorize_re_pattern`,
     which re-spells the pattern from pydoctor's vendored sre_parse36 tree.  Not modelled; direct oracle:
     the displayed text is an expression, it is the same expression outside the `re.compile` calls, every
@@ -1570,13 +1571,19 @@ def regex_stream(ctx: Ctx) -> None:
     for _ in range(100 if ctx.quick else 6000):
         pats.append("".join(ctx.rng.choice(atoms) for _ in range(ctx.rng.randint(1, 6))))
     n_eq = n_same = 0
+    srcs: List[str] = []
     for pat in pats:
         variants = [repr(pat)]
         if pat.isascii():
             variants.append(repr(pat.encode("ascii")))
         for pv in variants:
             for form in (RE_FORMS if pat in RE_PATTERNS else RE_FORMS[:2]):
-                src = form.format(p=pv)
+                srcs.append(form.format(p=pv))
+    if only is not None:
+        srcs = list(only)
+    if True:
+        if True:
+            for src in srcs:
                 for cfg in ((0, 1, False), (80, 7, True)):
                     try:
                         tree = ast.parse(src, mode="eval").body
@@ -1584,7 +1591,7 @@ def regex_stream(ctx: Ctx) -> None:
                         continue
                     inp = {"source": src, "linelen": cfg[0], "maxlines": cfg[1], "linebreakok": cfg[2]}
                     ctx.case("R|%s|%r" % (src, cfg), False, None)
-                    ctx.count("stream:regex")
+                    ctx.count("stream:" + stream)
                     try:
                         r = colorize_inline_pyval(tree) if cfg == (0, 1, False) else \
                             colorize_pyval(tree, linelen=cfg[0], maxlines=cfg[1])
@@ -1634,6 +1641,7 @@ def regex_stream(ctx: Ctx) -> None:
                                 elif ta != tb:
                                     # which feature of the source pattern was lost?
                                     sig = "regex:scoped-inline-flags-dropped" if re.search(r"\(\?[aiLmsux]*(-[imsx]+)?:", str(pa.value)) \
+                                        else "regex:alternation-common-prefix-ungrouped" if "|" in str(pa.value) \
                                         else "regex:pattern-means-something-else"
                                     bad = (sig, f"the pattern {pa.value!r} is shown as {pb.value!r}, which CPython's regex parser reads differently")
                                     break
@@ -1686,6 +1694,10 @@ def corpus_stream(ctx: Ctx) -> None:
     sequence_stream(ctx, only=[("Read | Write", [["Flags & " + q], [q]]), ("Read | Write", [[q], ["Flags & " + q]]),
                                ("Read | Write", [["Flags & " + q, q]]), ("Read | Write", [[q, "Flags & " + q]]),
                                ("Read | Write", [["-" + q], ["Optional[%s]" % q], [q]])], stream="corpus-sequence")
+    # regex findings
+    regex_stream(ctx, only=["re.compile('(?i:a)b')", "re.compile('(?s-i:.)x', re.M)", "re.compile('foo|foobar')",
+                            "re.compile('^ab$|^ac$')", "re.compile(b'(foo|foobar)', re.I)", "re.compile(pattern='a|b')",
+                            "re.compile(' (?!b)x{,2}| ')"], stream="corpus-regex")
     # seeded/C15-r2-2: plain assignment then augmented assignment
     augassign_stream(ctx, only=[[("BASE + 1", ""), ("2", "Mult")], [("100", ""), ("a - b", "Sub")],
                                 [("a + b", ""), ("2", "Mult")], [("a", ""), ("b", "Add")], [("100", ""), ("a * b", "Div")],
